@@ -4,6 +4,7 @@ import TinodeVerif.Driver.C20
 import TinodeVerif.Driver.C17
 import TinodeVerif.Driver.C19
 import TinodeVerif.Driver.C12
+import TinodeVerif.Driver.C18
 /-!
 Line-protocol driver. Usage:
   driver model    < ops.txt        > model.out     one output line per op line
@@ -34,6 +35,7 @@ def modelLine (st : DState) (line : String) : DState × String :=
       else if w.startsWith "elect." then Driver.C17.modelE ws
       else if w.startsWith "q." || w.startsWith "tags." then Driver.C19.model ws
       else if w.startsWith "tok." || w.startsWith "key." then Driver.C12.model ws
+      else if w.startsWith "tx." then Driver.C18.model ws
       else none
     match r with
     | some s => (st, s)
